@@ -1292,6 +1292,7 @@ int ov_raw_seek(OggVorbis_File *vf,ogg_int64_t pos){
     int thisblock=0;
     int lastflag=0;
     int firstflag=0;
+    int firstseen=0;
     ogg_int64_t pagepos=-1;
 
     ogg_stream_init(&work_os,vf->current_serialno); /* get the memory ready */
@@ -1388,6 +1389,13 @@ int ov_raw_seek(OggVorbis_File *vf,ogg_int64_t pos){
         ogg_stream_reset_serialno(&work_os,serialno);
         vf->ready_state=STREAMSET;
         firstflag=(pagepos<=vf->dataoffsets[link]);
+        firstseen=1;
+      }else if(!firstseen &&
+               ogg_page_serialno(&og)==vf->current_serialno){
+        /* still in the link we were already set to: the same test
+           applies to the first of its pages we come across */
+        firstflag=(pagepos<=vf->dataoffsets[vf->current_link]);
+        firstseen=1;
       }
 
       ogg_stream_pagein(&vf->os,&og);
